@@ -268,6 +268,29 @@ func init() {
 	}
 	Register(&Family{Name: "C11.seq", Props: []string{"C11"}, Weight: 5, Gen: gen("C11.seq", 1), Run: runC11})
 	Register(&Family{Name: "C11.conc", Props: []string{"C11", "C13"}, Weight: 3, Gen: gen("C11.conc", 2), Run: runC11})
+	// the race detector's view of Share's bookkeeping: the source terminates on one goroutine exactly while
+	// the last subscriber leaves (and a new one arrives) on others, over the whole cube of reset options
+	Register(&Family{Name: "C13.share", Props: []string{"C13"}, Weight: 4, Gen: func(g *Gen) *Scn {
+		sc := &Scn{Family: "C13.share", Sub: g.Pick("share", "share", "sharereplay")}
+		sc.SetInt("connector", g.Intn(6))
+		sc.SetInt("rbuf", g.PickInt(0, 1, 2))
+		sc.SetInt("rE", g.Intn(2))
+		sc.SetInt("rC", g.Intn(2))
+		sc.SetInt("rZ", g.Intn(2))
+		sc.SetInt("clients", 3)
+		sc.Sources = []SrcSpec{{Mode: "manual"}}
+		term := OpSpec{Client: 0, Op: "srcE", A: 1}
+		if g.Bool(0.4) {
+			term = OpSpec{Client: 0, Op: "srcC"}
+		}
+		// client 0 is the source, client 1 holds the subscribers that leave, client 2 brings a newcomer
+		sc.Ops = []OpSpec{{Client: 1, Op: "sub", A: 0}}
+		if g.Bool(0.5) {
+			sc.Ops = append(sc.Ops, OpSpec{Client: 1, Op: "sub", A: 1}, OpSpec{Client: 1, Op: "unsub", A: 1})
+		}
+		sc.Ops = append(sc.Ops, OpSpec{Client: 0, Op: "srcN", A: 1}, term, OpSpec{Client: 1, Op: "unsub", A: 0}, OpSpec{Client: 2, Op: "sub", A: 2}, OpSpec{Client: 0, Op: "srcN", A: 2})
+		return sc
+	}, Run: runC11})
 }
 
 func runC11(e *Env) {
